@@ -3,7 +3,6 @@ package security
 import (
 	"fmt"
 	"regexp"
-	"strings"
 )
 
 // Severity represents the severity level of a security finding.
@@ -144,10 +143,10 @@ var tautologyPatterns = []*regexp.Regexp{
 
 func (r *TautologyRule) Check(sql string) []Finding {
 	var findings []Finding
-	upper := strings.ToUpper(sql)
+	// The patterns are case-insensitive: match the text itself, so that the
+	// offsets are offsets into it (upper-casing can change byte lengths).
 	for _, pat := range tautologyPatterns {
-		for _, loc := range pat.FindAllStringIndex(upper, -1) {
-			// Verify it's actually a match on original (case insensitive regex already handles this)
+		for _, loc := range pat.FindAllStringIndex(sql, -1) {
 			matched := sql[loc[0]:loc[1]]
 			findings = append(findings, Finding{
 				RuleID:   r.ID(),
@@ -209,7 +208,7 @@ var unionPatterns = []*regexp.Regexp{
 	// UNION SELECT null, null, ...
 	regexp.MustCompile(`(?i)\bUNION\s+(ALL\s+)?SELECT\s+NULL(\s*,\s*NULL)+`),
 	// UNION SELECT with information_schema
-	regexp.MustCompile(`(?i)\bUNION\s+(ALL\s+)?SELECT\s+.*\binformation_schema\b`),
+	regexp.MustCompile(`(?is)\bUNION\s+(ALL\s+)?SELECT\s+.*?\binformation_schema\b`),
 }
 
 func (r *UnionInjectionRule) Check(sql string) []Finding {
